@@ -155,15 +155,26 @@ pub fn run(toks: &[&str]) -> String {
                     let reps = parse_n(t.next().unwrap());
                     let mut sum: Vec<f64> = vec![];
                     let mut sq: Vec<f64> = vec![];
+                    // per-qubit marginals: shots with qubit k = 1 (joint behaviour of the cells)
+                    let nq = reg.num();
+                    let mut msum = vec![0.0f64; nq];
+                    let mut msq = vec![0.0f64; nq];
                     for _ in 0..reps {
                         let h = reg.sample_all(count);
                         if sum.is_empty() { sum = vec![0.0; h.len()]; sq = vec![0.0; h.len()]; }
                         for (i, c) in h.iter().enumerate() { sum[i] += *c as f64; sq[i] += (*c as f64) * (*c as f64); }
+                        for k in 0..nq {
+                            let m: f64 = h.iter().enumerate().filter(|(i, _)| (i >> k) & 1 == 1).map(|(_, c)| *c as f64).sum();
+                            msum[k] += m; msq[k] += m * m;
+                        }
                     }
                     let _ = qvnt::verif::take_normals();
                     let mut s = format!("s {}", sum.len());
                     for x in &sum { s.push(' '); s.push_str(&hex(*x)); }
                     for x in &sq { s.push(' '); s.push_str(&hex(*x)); }
+                    s.push_str(&format!(" | g {}", nq));
+                    for x in &msum { s.push(' '); s.push_str(&hex(*x)); }
+                    for x in &msq { s.push(' '); s.push_str(&hex(*x)); }
                     Some(s)
                 }
                 "dump" => {
